@@ -126,7 +126,7 @@ CHECKS = {
                      "C18_CommitDelivers at the end, C18_DischargeReply and C18_FreshId on every control-link reply, C18_RefusalSignalled for posts under unknown or finished ids, "
                      "C18_LatePost for the back-to-back schedule. Controller side: depth 4 (6) over declare / post / commit / rollback / drop with accepting and rejecting coordinator: "
                      "C18_PostCarriesId, C18_DischargeWire (id and fail flag), C18_OutcomeReported.",
-                note="retirements (transactional dispositions of deliveries the resource sent) and transactional acquisition are not exercised; the receiving application is one recv loop per link"),
+                note="retirement is exercised for one delivery the resource sends (C18_RetireIsolated: its send resolves only once the transaction has committed; C18_RetireApplied); transactional acquisition is not exercised; the receiving application is one recv loop per link"),
     "C19": dict(technique="TLC model check of the SASL negotiation machines of both roles against a Dolev-Yao adversary with symbolic SCRAM terms (Sasl.tla: no authentication without the password, authentication needs a password-derived term, a non-OK outcome never authenticates; negative reachability controls); the same adversary's frame sequences enumerated by TLC as scripts (SaslGen.tla), turned into real bytes by an independent RFC 5802 implementation in the harness and played against the real ConnectionAcceptor / Connection::open; traces validated in TLC against the ideal machines (SaslTrace.tla)",
                 design="4/C19",
                 text="MC: for listener PLAIN / SCRAM and client SCRAM, an adversary whose alphabet excludes every term built from the password never drives the ideal machine to 'amqp' "
